@@ -141,6 +141,7 @@ type compiler struct {
 	scope       []int
 	cur         *token
 	Imports     map[string]string // alias -> package
+	fileImports map[string]string // file name + "\x00" + alias -> package
 	Optimize    bool
 	Returns     []int
 	FuncName    string
@@ -241,7 +242,12 @@ func (c *compiler) importedGlobal(tok *token) (int, bool) {
 	if left.Symbol != "(name)" || c.Locals.Exists(left.Text) {
 		return 0, false
 	}
-	pkg, ok := c.Imports[left.Text]
+	// an import name belongs to the file that declares it; the package-wide table only
+	// serves files (and Eval snippets) that do not import the name themselves
+	pkg, ok := c.fileImports[left.Pos.Filename+"\x00"+left.Text]
+	if !ok {
+		pkg, ok = c.Imports[left.Text]
+	}
 	if !ok {
 		return 0, false
 	}
@@ -797,6 +803,10 @@ func (c *compiler) compile(tok *token) []instruction {
 			key := tok.Tokens[i].Text
 			t := tok.Tokens[i+1]
 			c.Imports[key] = t.Unquote()
+			if c.fileImports == nil {
+				c.fileImports = map[string]string{}
+			}
+			c.fileImports[t.Pos.Filename+"\x00"+key] = t.Unquote()
 		}
 	case "[]":
 		const newType, newData = 0, 1
